@@ -170,7 +170,7 @@ func checkVersioned(w *World, hist map[string][]verEntry, ncf, nkeys int) {
 					found = true
 				case errors.Is(err, utils.ErrKeyNotFound):
 				default:
-					w.Res.Violate(w.step, "read_error", readErrSig(w, "GetVersionedEntry", err), "GetVersionedEntry(%v,%q,%d): %v; copies: %s", cf, key, v, err, DescribeCopies(w, cf, key))
+					w.Res.Violate(w.step, "read_error", readErrSig(w, "GetVersionedEntry", err, []byte{byte(cf)}, key), "GetVersionedEntry(%v,%q,%d): %v; copies: %s", cf, key, v, err, DescribeCopies(w, cf, key))
 					continue
 				}
 				if !found && exp == nil {
